@@ -40,25 +40,41 @@ def el_of_z(z: int) -> str:
     return SYMBOLS[z - 1] if 1 <= z <= 118 else f"?Z{z}"
 
 
-def coord_float(c, world=1) -> float:
-    """[u, s] -> (10u + s) * 1e-7 units of `world` Angstrom (the object's length scale), the nearest double."""
-    return float(Decimal(10 * int(c["u"]) + int(c["s"])).scaleb(-7) * world)
+# the names (= xyz comment lines) behind the spec's name tokens; "empty" / "space" / "tab" give a blank comment line
+NAMES = {"plain": "mbv", "empty": "", "space": " ", "tab": "\t", "padded": "  two words  ", "count": "3"}
+_NAME_TOK = {v: k for k, v in NAMES.items()}
 
 
-def coord_abs(x: float, world=1):
+def name_token(name) -> str:
+    if name in _NAME_TOK:
+        return _NAME_TOK[name]
+    return "space" if isinstance(name, str) and name.strip() == "" else "plain"
+
+
+def scale_of(world: int) -> Decimal:
+    """world = decimal exponent of the object's length scale: 10^world Angstrom (0, 3, -3)."""
+    return Decimal(10) ** int(world)
+
+
+def coord_float(c, world=0) -> float:
+    """[u, s] -> (10u + s) * 1e-7 units of 10^world Angstrom (the object's length scale), the nearest double."""
+    return float(Decimal(10 * int(c["u"]) + int(c["s"])).scaleb(-7) * scale_of(world))
+
+
+def coord_abs(x: float, world=0):
     """Inverse of coord_float on its image; other doubles are reported at 1e-7 scale units resolution."""
     if not math.isfinite(x):
         return {"u": str(x), "s": 0}
-    v = int(((Decimal(x) / world).scaleb(7)).to_integral_value(ROUND_HALF_EVEN))
+    v = int(((Decimal(x) / scale_of(world)).scaleb(7)).to_integral_value(ROUND_HALF_EVEN))
     u = (v + 5) // 10
     return {"u": u, "s": v - 10 * u}
 
 
-def to_units(x: float, res: int, world=1):
-    """A loaded coordinate (Angstrom) as an integer number of `res` micro-units of the length scale `world` A."""
+def to_units(x: float, res: int, world=0):
+    """A loaded coordinate (Angstrom) as an integer number of `res` micro-units of the length scale 10^world A."""
     if not math.isfinite(x):
         return str(x)
-    return int((Decimal(x) / world * 1000000 / res).to_integral_value(ROUND_HALF_EVEN))
+    return int((Decimal(x) / scale_of(world) * 1000000 / res).to_integral_value(ROUND_HALF_EVEN))
 
 
 def dec_str(t: int, d: int) -> str:
@@ -88,7 +104,7 @@ class Lab:
         return sorted(DistanceUnit.__members__)
 
     # ---- interpretation ------------------------------------------------------------------------------
-    def _one(self, cls, frame, name, world=1):
+    def _one(self, cls, frame, name, world=0):
         import numpy as np
         n = len(frame)
         xyz = np.array([[coord_float(a["x"], world), coord_float(a["y"], world), coord_float(a["z"], world)] for a in frame],
@@ -102,7 +118,8 @@ class Lab:
 
     def build(self, g, name="mbv"):
         """g = {cls, frames}: a real object of that class holding those frames."""
-        w = g.get("world", 1)
+        w = g.get("world", 0)
+        name = NAMES.get(g.get("name"), name)
         if g["cls"] == ENS:
             mols = [self._one(self.ml.Molecule, f, name, w) for f in g["frames"]]
             return self.ml.ConformerEnsemble(mols)
@@ -115,7 +132,7 @@ class Lab:
             if ln["k"] == "count":
                 out.append(f"{ln['n']}")
             elif ln["k"] == "comment":
-                out.append(comment)
+                out.append("" if ln.get("blank") else comment)
             else:
                 sym = "*" if ln["el"] == DUMMY else ln["el"]
                 out.append(f"{sym:<3} {dec_str(ln['x'], dec):>18} {dec_str(ln['y'], dec):>18} {dec_str(ln['z'], dec):>18}")
@@ -138,7 +155,7 @@ class Lab:
     def _els(self, obj):
         return [el_of_z(a.element.z if hasattr(a.element, "z") else a.element.value) for a in obj.atoms]
 
-    def abstract_obj(self, obj, world=1):
+    def abstract_obj(self, obj, world=0):
         """In-memory object -> {cls, frames, world} with [u, s] coordinates in the length scale `world` (public
         accessors only)."""
         ca = lambda v: coord_abs(float(v), world)
@@ -150,9 +167,9 @@ class Lab:
         else:
             frames = [[{"el": e, "ty": t, "x": ca(r[0]), "y": ca(r[1]), "z": ca(r[2])}
                        for (e, t), r in zip(els, obj.coords)]]
-        return {"cls": cn, "frames": frames, "world": world}
+        return {"cls": cn, "frames": frames, "world": world, "name": name_token(getattr(obj, "name", None))}
 
-    def abstract_loaded(self, res_obj, res: int, world=1):
+    def abstract_loaded(self, res_obj, res: int, world=0):
         """Result of a load call -> (ret, class name, frames of [el, x, y, z] in units of res micro-A)."""
         def geom(o, coords):
             els = self._els(o)
@@ -168,9 +185,11 @@ class Lab:
             return "ensemble", cn, [geom(res_obj, c) for c in res_obj.coords]
         return "object", cn, [geom(res_obj, res_obj.coords)]
 
-    def tokenize_xyz(self, text: str, dec: int | None, world=1):
-        """Independent positional tokenizer of xyz text.  Returns (lines, observed decimals).  Coordinates
-        are integers in units of 10^-dec of the length scale `world` A (dec=None: the decimals found in the text)."""
+    def tokenize_xyz(self, text: str, dec: int | None, world=0):
+        """Independent positional tokenizer of xyz text.  Returns (lines, observed decimals).  `dec` = decimals of
+        Angstrom the text shows (None: those found in it).  Coordinates are integers in units of 10^-d of the length
+        scale 10^world A with d = min(6, dec + world) (what the model follows, XyzText!ModelDec); a comment line reports
+        whether it is blank."""
         raw = text.split("\n")
         if raw and raw[-1] == "":
             raw.pop()
@@ -184,7 +203,8 @@ class Lab:
                     elif c.lstrip("+-").isdigit():
                         found.add(0)
         odec = min(found) if found else None
-        d = dec if dec is not None else (odec if odec is not None else 0)
+        D = dec if dec is not None else (odec if odec is not None else 0)
+        d, capped, sc = min(6, D + world), D + world > 6, scale_of(world)
 
         def num(c):
             try:
@@ -193,9 +213,9 @@ class Lab:
                 return "?" + c
             if not v.is_finite():
                 return str(v)
-            w = (v / world).scaleb(d) if world != 1 else v.scaleb(d)
+            w = (v / sc).scaleb(d)
             if w != w.to_integral_value():
-                if d >= 6:                       # finer than the model's resolution: look at it at 1e-6
+                if capped:                            # finer than the model's resolution: look at it at the sixth decimal
                     return int(w.to_integral_value(ROUND_HALF_EVEN))
                 return "?" + c                  # not on the grid of the declared precision
             return int(w)
@@ -215,7 +235,7 @@ class Lab:
             lines.append({"k": "count", "n": n})
             i += 1
             if i < len(raw):
-                lines.append({"k": "comment"})
+                lines.append({"k": "comment", "blank": raw[i].strip() == ""})
                 i += 1
             for _ in range(n):
                 if i >= len(raw):
@@ -229,24 +249,28 @@ class Lab:
         return lines, odec
 
     # ---- the real calls ------------------------------------------------------------------------------
-    def dump(self, obj, route: str, stream: io.StringIO):
+    def dump(self, obj, route: str, stream: io.StringIO, D=None):
         if route == "dumps":
             stream.write(obj.dumps_xyz())
         elif route == "dump":
             obj.dump_xyz(stream)
+        elif route == "dump_fmt":                            # the caller chooses the number of decimals
+            obj.dump_xyz(stream, fmt=f"{D + 8}.{D}f")
         else:
             raise AssertionError(route)
 
-    def dump_conformer(self, ens, i: int, route: str, stream: io.StringIO):
+    def dump_conformer(self, ens, i: int, route: str, stream: io.StringIO, D=None):
         conf = ens[i - 1]                                    # the Conformer view
         if route == "dumps":
             stream.write(conf.dumps_xyz())
         elif route == "dump":
             conf.dump_xyz(stream)
+        elif route == "dump_fmt":
+            conf.dump_xyz(stream, fmt=f"{D + 8}.{D}f")
         else:
             raise AssertionError(route)
 
-    def load(self, text: str, fmt: str, cls: str, entry: str, units: str, res: int, world=1):
+    def load(self, text: str, fmt: str, cls: str, entry: str, units: str, res: int, world=0):
         """cls.<entry>_<fmt>(..., source_units=units) -> outcome dict (out, ret, cls, val)."""
         k = self.cls[cls]
         base = {"load_path": "load", "load_stream": "load", "loads": "loads", "load_all_path": "load_all",
@@ -281,7 +305,8 @@ class XyzAdapter:
         self.fmt = "none"
         self.foreign = False
         self.changed = True
-        self.world = 1
+        self.world = 0
+        self.D = dec
 
     def cleanup(self):
         self.obj = None
@@ -291,21 +316,22 @@ class XyzAdapter:
         self.changed = a != "load"
         if a == "make":
             self.obj = self.lab.build(act["g"])
-            self.world = act["g"].get("world", 1)
+            self.world = act["g"].get("world", 0)
             return {"out": "ok"}
         if a in ("dump", "dumpconf"):
+            self.D = act["D"] if act["route"] == "dump_fmt" else self.dec
             if a == "dump":
-                self.lab.dump(self.obj, act["route"], self.stream)
+                self.lab.dump(self.obj, act["route"], self.stream, act.get("D"))
             else:
-                self.lab.dump_conformer(self.obj, act["i"], act["route"], self.stream)
+                self.lab.dump_conformer(self.obj, act["i"], act["route"], self.stream, act.get("D"))
             self.text, self.fmt, self.obj = self.stream.getvalue(), "xyz", None
             return {"out": "ok"}
         if a == "foreign":
-            self.fmt, self.foreign, self.world = act["fmt"], True, 1
+            self.fmt, self.foreign, self.world = act["fmt"], True, 0
             self.text = (self.lab.render_xyz if act["fmt"] == "xyz" else self.lab.render_mol2)(act["lines"], act["dec"])
             return {"out": "ok"}
         if a == "load":
-            o = self.lab.load(self.text, act["fmt"], act["cls"], act["entry"], act["units"], act["res"], act.get("world", 1))
+            o = self.lab.load(self.text, act["fmt"], act["cls"], act["entry"], act["units"], act["res"], act.get("world", 0))
             o.pop("exc", None)
             return o
         raise AssertionError(f"unknown action {a}")
@@ -319,7 +345,7 @@ class XyzAdapter:
         elif self.foreign:
             text = None                                   # rendered by the harness itself: nothing of molli to observe
         else:
-            text = {"fmt": "xyz", "lines": self.lab.tokenize_xyz(self.text, self.dec, self.world)[0]}
+            text = {"fmt": "xyz", "lines": self.lab.tokenize_xyz(self.text, self.D, self.world)[0]}
         return {"mem": mem, "text": text}
 
 
